@@ -19,6 +19,8 @@ const P01: PS = PS::of(Prop::C01);
 const P05: PS = PS::of(Prop::C05);
 const P07: PS = PS::of(Prop::C07);
 const P11: PS = PS::of(Prop::C11);
+const P16: PS = PS::of(Prop::C16);
+const P18: PS = PS::of(Prop::C18);
 
 fn kf(x: u8) -> f32 {
     // a third of the keys are NaN
@@ -32,6 +34,9 @@ struct E<'c> {
     cx: &'c mut Ctx,
     m: Map<f32, u32, NN>,
     s: Set<f32, NN>,
+    /// C18: a twin of `m` that gets the same operations, with `insert_unchecked` wherever its
+    /// contract (not full, or some stored key == the new one) is met
+    mu: Map<f32, u32, NN>,
     /// association lists (insertion does not fix the slot order, so they are compared as multisets)
     mm: Vec<(f32, u32)>,
     sm: Vec<f32>,
@@ -48,6 +53,8 @@ impl E<'_> {
         let cx = &mut *self.cx;
         let got = tl::quiet(|| self.m.iter().map(|(k, v)| (*k, *v)).collect::<Vec<_>>()).unwrap_or_default();
         cx.chk(P01, bits(&got) == bits(&self.mm) && self.m.len() == self.mm.len(), "state-vs-model", || format!("Map<f32,u32,{NN}> holds {got:?}, the association list over == holds {:?}", self.mm));
+        let gu = tl::quiet(|| self.mu.iter().map(|(k, v)| (*k, *v)).collect::<Vec<_>>()).unwrap_or_default();
+        cx.chk(P18, bits(&gu) == bits(&self.mm) && self.mu.len() == self.mm.len(), "unchecked-vs-safe-state", || format!("Map<f32,u32,{NN}> driven through insert_unchecked holds {gu:?}, the association list over == (and the map driven through insert) holds {:?}", self.mm));
         cx.chk(P05, self.m.len() == got.len() && self.m.len() <= NN, "len-vs-iter", || format!("len()={} but iteration yields {} entries", self.m.len(), got.len()));
         let gs = tl::quiet(|| self.s.iter().copied().collect::<Vec<f32>>()).unwrap_or_default();
         let mut a: Vec<u32> = gs.iter().map(|k| k.to_bits()).collect();
@@ -87,6 +94,141 @@ impl E<'_> {
         }
     }
 
+    /// Bulk operations over elements that are not reflexive (C16: "exactly the container obtained
+    /// by inserting the items one at a time in order"; one at a time, every NaN takes a fresh slot).
+    fn bulk(&mut self, o: [u8; 4], code: u8) {
+        let cx = &mut *self.cx;
+        cx.bump(S::nan_bulk_ops);
+        let all = [kf(o[1]), kf(o[2]), kf(o[3]), kf(o[1] ^ o[2]), kf(o[1].wrapping_add(o[3])), kf(o[2].wrapping_mul(3)), kf(o[3] ^ 0x55), kf(o[1] ^ 0xAA)];
+        // what one-by-one insertion into `start` gives: Ok(list) or Err(list at the overflow)
+        let one_by_one = |start: &[f32], items: &[f32]| -> Result<Vec<f32>, Vec<f32>> {
+            let mut l = start.to_vec();
+            for it in items {
+                if l.iter().any(|e| e == it) {
+                    continue;
+                }
+                if l.len() >= NN {
+                    return Err(l);
+                }
+                l.push(*it);
+            }
+            Ok(l)
+        };
+        let sbits = |v: &[f32]| {
+            let mut o: Vec<u32> = v.iter().map(|k| k.to_bits()).collect();
+            o.sort_unstable();
+            o
+        };
+        if code == 8 {
+            // Set::extend, by value and by reference (`Extend<&T>` for `T: Copy`)
+            cx.cur_op = "extend";
+            let n = 1 + (o[3] as usize % 5);
+            let items = &all[..n];
+            let by_ref = o[2] & 1 == 1;
+            let want = one_by_one(&self.sm, items);
+            let s = &mut self.s;
+            let r = tl::lib(|| if by_ref { s.extend(items.iter()) } else { s.extend(items.iter().copied()) });
+            let gs = tl::quiet(|| self.s.iter().copied().collect::<Vec<f32>>()).unwrap_or_default();
+            match (&r, &want) {
+                (Ok(()), Ok(l)) => {
+                    cx.chk(P16.and(Prop::C07), sbits(&gs) == sbits(l), "bulk-vs-one-by-one", || format!("Set<f32,{NN}> {:?} extended{} with {items:?} holds {gs:?}; inserting the items one at a time gives {l:?}", self.sm, if by_ref { " by reference" } else { "" }));
+                    self.sm = gs;
+                }
+                (Err(p), Err(_)) if *p != tl::Pk::Injected => {
+                    cx.bump(S::lib_panics);
+                    self.sm = gs;
+                }
+                _ => {
+                    cx.chk(P16.and(Prop::C07).and(Prop::C03), false, "bulk-vs-one-by-one", || format!("Set<f32,{NN}> {:?} extended{} with {items:?}: {r:?}; inserting the items one at a time {}", self.sm, if by_ref { " by reference" } else { "" }, if want.is_ok() { "succeeds" } else { "overflows" }));
+                    self.sm = gs;
+                }
+            }
+        } else {
+            cx.cur_op = "from_iter";
+            let n = o[3] as usize % 9;
+            let items = &all[..n];
+            match o[2] % 3 {
+                0 => {
+                    let want = one_by_one(&[], items);
+                    let r = tl::lib(|| items.iter().copied().collect::<Set<f32, NN>>());
+                    match (&r, &want) {
+                        (Ok(s), Ok(l)) => {
+                            let gs: Vec<f32> = tl::quiet(|| s.iter().copied().collect()).unwrap_or_default();
+                            cx.chk(P16, sbits(&gs) == sbits(l) && s.len() == l.len(), "bulk-vs-one-by-one", || format!("Set<f32,{NN}> collected from {items:?} holds {gs:?}; inserting the items one at a time gives {l:?}"));
+                        }
+                        (Err(p), Err(_)) if *p != tl::Pk::Injected => cx.bump(S::lib_panics),
+                        _ => {
+                            let t = r.as_ref().map(|s| s.len());
+                            cx.chk(P16.and(Prop::C03), false, "bulk-vs-one-by-one", || format!("Set<f32,{NN}> collected from {items:?}: {t:?}; inserting the items one at a time {}", if want.is_ok() { "succeeds" } else { "overflows" }));
+                        }
+                    }
+                }
+                1 => {
+                    // Map::from_iter: last value wins for keys that == an earlier one
+                    let pairs: Vec<(f32, u32)> = items.iter().enumerate().map(|(i, k)| (*k, 0x0C00_0000 | i as u32)).collect();
+                    let mut l: Vec<(f32, u32)> = vec![];
+                    let mut over = false;
+                    for (k, v) in &pairs {
+                        if let Some(e) = l.iter_mut().find(|e| e.0 == *k) {
+                            e.1 = *v;
+                        } else if l.len() >= NN {
+                            over = true;
+                            break;
+                        } else {
+                            l.push((*k, *v));
+                        }
+                    }
+                    let r = tl::lib(|| pairs.iter().copied().collect::<Map<f32, u32, NN>>());
+                    match &r {
+                        Ok(m) if !over => {
+                            let g: Vec<(f32, u32)> = tl::quiet(|| m.iter().map(|(k, v)| (*k, *v)).collect()).unwrap_or_default();
+                            cx.chk(P16, bits(&g) == bits(&l) && m.len() == l.len(), "bulk-vs-one-by-one", || format!("Map<f32,u32,{NN}> collected from {pairs:?} holds {g:?}; inserting the pairs one at a time gives {l:?}"));
+                        }
+                        Err(p) if over && *p != tl::Pk::Injected => cx.bump(S::lib_panics),
+                        _ => {
+                            let t = r.as_ref().map(|m| m.len());
+                            cx.chk(P16.and(Prop::C03), false, "bulk-vs-one-by-one", || format!("Map<f32,u32,{NN}> collected from {pairs:?}: {t:?}; inserting the pairs one at a time {}", if over { "overflows" } else { "succeeds" }));
+                        }
+                    }
+                }
+                _ => {
+                    // From<[_; N]>: exactly N items, so one-by-one insertion cannot overflow
+                    let arr: [f32; NN] = core::array::from_fn(|i| all[i]);
+                    let l = one_by_one(&[], &arr).unwrap_or_default();
+                    let r = tl::lib(|| Set::<f32, NN>::from(arr));
+                    match &r {
+                        Ok(s) => {
+                            let gs: Vec<f32> = tl::quiet(|| s.iter().copied().collect()).unwrap_or_default();
+                            cx.chk(P16, sbits(&gs) == sbits(&l) && s.len() == l.len(), "bulk-vs-one-by-one", || format!("Set::<f32,{NN}>::from({arr:?}) holds {gs:?}; inserting the items one at a time gives {l:?}"));
+                        }
+                        Err(_) => {
+                            cx.chk(P16, false, "bulk-vs-one-by-one", || format!("Set::<f32,{NN}>::from({arr:?}) panicked; inserting the items one at a time succeeds"));
+                        }
+                    }
+                    let parr: [(f32, u32); NN] = core::array::from_fn(|i| (all[i], 0x0D00_0000 | i as u32));
+                    let mut lm: Vec<(f32, u32)> = vec![];
+                    for (k, v) in &parr {
+                        if let Some(e) = lm.iter_mut().find(|e| e.0 == *k) {
+                            e.1 = *v;
+                        } else {
+                            lm.push((*k, *v));
+                        }
+                    }
+                    let r = tl::lib(|| Map::<f32, u32, NN>::from(parr));
+                    match &r {
+                        Ok(m) => {
+                            let g: Vec<(f32, u32)> = tl::quiet(|| m.iter().map(|(k, v)| (*k, *v)).collect()).unwrap_or_default();
+                            cx.chk(P16, bits(&g) == bits(&lm) && m.len() == lm.len(), "bulk-vs-one-by-one", || format!("Map::<f32,u32,{NN}>::from({parr:?}) holds {g:?}; inserting the pairs one at a time gives {lm:?}"));
+                        }
+                        Err(_) => {
+                            cx.chk(P16, false, "bulk-vs-one-by-one", || format!("Map::<f32,u32,{NN}>::from({parr:?}) panicked; inserting the pairs one at a time succeeds"));
+                        }
+                    }
+                }
+            }
+        }
+    }
+
     fn op(&mut self, o: [u8; 4]) {
         let k = kf(o[1]);
         let v = 0x0B00_0000 | (self.cx.step as u32) << 8 | o[3] as u32;
@@ -94,10 +236,56 @@ impl E<'_> {
         let full = self.mm.len() >= NN;
         let cx = &mut *self.cx;
         cx.bump(S::ops);
-        match o[0] % 8 {
+        let code = o[0] % 10;
+        if cx.armed == Prop::C18 {
+            // the twin first (the association list still describes the state before the op)
+            let held = pos.map(|i| self.mm[i].1);
+            match code {
+                0 => {
+                    cx.cur_op = "insert_unchecked";
+                    let within = !full || pos.is_some();
+                    if within {
+                        cx.bump(S::nan_unchecked_inserts);
+                    }
+                    let mu = &mut self.mu;
+                    // SAFETY: called only when the map is not full or some stored key == k
+                    let r = tl::lib(|| if within { unsafe { mu.insert_unchecked(k, v) } } else { mu.insert(k, v) });
+                    let want: Result<Option<u32>, ()> = if within { Ok(held) } else { Err(()) };
+                    let got = r.clone().map_err(|_| ());
+                    cx.chk(P18, got == want, "unchecked-vs-safe-return", || format!("insert_unchecked({k}) on a map of {} of {NN} entries (some stored key == it: {}) gave {r:?}; insert gives {want:?}", self.mm.len(), pos.is_some()));
+                }
+                1 => {
+                    let _ = tl::lib(|| self.mu.insert_key_value(k, v));
+                }
+                3 => {
+                    let _ = tl::lib(|| if o[2] & 1 == 0 { self.mu.remove(&k) } else { self.mu.remove_entry(&k).map(|p| p.1) });
+                }
+                4 => {
+                    let room = !full;
+                    let _ = tl::lib(|| {
+                        if let Entry::Vacant(e) = self.mu.entry(k) {
+                            if room {
+                                e.insert(v);
+                            }
+                        }
+                    });
+                }
+                5 => {
+                    let _ = tl::lib(|| self.mu.checked_insert(k, v));
+                }
+                _ => {}
+            }
+        }
+        match code {
+            8 | 9 => self.bulk(o, code),
+            _ => {}
+        }
+        let cx = &mut *self.cx;
+        match code {
+            8 | 9 => {}
             0 | 1 => {
                 cx.cur_op = "insert";
-                let r = tl::lib(|| if o[0] % 8 == 0 { self.m.insert(k, v) } else { self.m.insert_key_value(k, v).map(|p| p.1) });
+                let r = tl::lib(|| if code == 0 { self.m.insert(k, v) } else { self.m.insert_key_value(k, v).map(|p| p.1) });
                 match (r, pos, full) {
                     (Ok(got), Some(i), _) => {
                         cx.chk(P01, got == Some(self.mm[i].1), "return", || format!("insert({k}) returned {got:?}, the stored value was {}", self.mm[i].1));
@@ -211,7 +399,7 @@ impl E<'_> {
 
 pub fn run_sub(case: &Case, cx: &mut Ctx) {
     cx.cur_op = "insert";
-    let mut e = E { cx, m: Map::new(), s: Set::new(), mm: vec![], sm: vec![] };
+    let mut e = E { cx, m: Map::new(), s: Set::new(), mu: Map::new(), mm: vec![], sm: vec![] };
     for (i, o) in case.ops.iter().enumerate() {
         e.cx.step = i;
         // the same bytes as the slices part, read in another order
